@@ -123,6 +123,11 @@ pub fn run(tier: &str, rec: &Recorder) -> RunOutput {
     for f in c18_families(tier) {
         for_each_graph(&f, seed, deadline, &stats, |b, c| check_eigen(b, rec, c));
     }
+    {
+        let mut c = Counters::default();
+        crate::large::c18_large(tier, rec, &mut c);
+        stats.counters.lock().unwrap().merge(&c);
+    }
     fill_e2_coverage(&mut out, &stats);
     out.set("traces_validated_against_impl", out.get("transitions"));
     out.set("distinct_nontrivial", out.get("returned_ok"));
